@@ -19,6 +19,17 @@ CHECKS = {
               "identities checked by TLC at every sample, plus linearity/peak-law relation events."),
         design_ref="DESIGN.md section 4, C08",
         note=LEVEL_NOTE_N),
+    "C11": dict(
+        engine="Peaks",
+        technique="TLA+ one-pass automaton + declarative twin; TLC exhaustive over all series on 5 levels with the implementation table in lock-step; TLC trace validation of recorded calls",
+        category="model_checking",
+        text=("MC_Peaks: every series over 5 levels up to length 7 (quick) / 8 (thorough, 488 280 series = the property's exhaustive "
+              "quantifier): automaton = declarative turning-point definition, the statement's clauses hold of it and determine the "
+              "result uniquely, and in every reachable state get_peak_array_indices(all/max/min) and get_n_cyc_array(origin/peak) of "
+              "exactly that series equal the model. Trace_Peaks: random real-valued and plateau-rich series up to 5000 samples "
+              "validated sample by sample."),
+        design_ref="DESIGN.md section 4, C11",
+        note="exhaustive on the 5-level alphabet (integers; list/int/float containers alternate); sampled for real-valued series; trusted: TLC 1.8, FP.class, TableIO.class"),
 }
 
 NOT_YET = {}
